@@ -101,6 +101,227 @@ theorem trxcon_tx_overflow (tn fn pwr : Nat) (bits : List Nat) (h1 : 506 < bits.
   simp only [cTx, hcap, e4]
   rw [if_pos (by omega), if_neg (by omega), if_pos (by omega)]
 
+/-! ## C05: the TRXC commands trxcon emits -/
+
+/-- a decimal argument: digits, optionally with a minus sign -/
+def IsDecTok (a : List Nat) : Prop :=
+  (a ≠ [] ∧ ∀ c ∈ a, isDigit c = true) ∨ (∃ t, a = 45 :: t ∧ t ≠ [] ∧ ∀ c ∈ t, isDigit c = true)
+
+/-- `CMD <VERB>[ <arg>]*`: upper-case verb, single blanks, decimal arguments -/
+def WellFormedCmd (s : List Nat) : Prop :=
+  ∃ (verb : List Nat) (args : List (List Nat)), s = str "CMD " ++ verb ++ args.flatMap (fun a => 32 :: a) ∧ verb ≠ [] ∧
+    (∀ c ∈ verb, 65 ≤ c ∧ c ≤ 90) ∧ ∀ a ∈ args, IsDecTok a
+
+theorem fmtU_tok (n : Nat) : IsDecTok (fmtU n) :=
+  .inl ⟨decFuel_ne_nil 9 _, fmtU_chars n⟩
+
+theorem fmtD_tok (x : Int) : IsDecTok (fmtD x) := by
+  simp only [fmtD]
+  split
+  · exact .inr ⟨_, rfl, decFuel_ne_nil 9 _, decFuel_digits 10 _⟩
+  · exact .inl ⟨decFuel_ne_nil 9 _, decFuel_digits 10 _⟩
+
+theorem verb_ne (s : String) (h : (str s).length ≠ 0) : str s ≠ [] := by
+  intro e; rw [e] at h; exact h rfl
+
+theorem upper_of_all (s : String) (h : (str s).all (fun c => decide (65 ≤ c) && decide (c ≤ 90)) = true) :
+    ∀ c ∈ str s, 65 ≤ c ∧ c ≤ 90 := by
+  intro c hc
+  have := List.all_eq_true.mp h c hc
+  simpa using this
+
+/-- the verbs and argument tokens of `emitSpec` are upper-case / decimal -/
+theorem emitSpec_wf (c : PhyCmd) : ∀ e ∈ emitSpec c, e.verb ≠ [] ∧ (∀ c ∈ e.verb, 65 ≤ c ∧ c ≤ 90) ∧
+    ∀ a ∈ e.args, IsDecTok a := by
+  intro e he
+  cases c with
+  | reset =>
+    simp only [emitSpec, List.mem_cons, List.mem_nil_iff, or_false] at he
+    rcases he with rfl | rfl
+    · exact ⟨verb_ne "POWEROFF" (by decide), upper_of_all "POWEROFF" (by decide), by simp⟩
+    · exact ⟨verb_ne "ECHO" (by decide), upper_of_all "ECHO" (by decide), by simp⟩
+  | poweron =>
+    simp only [emitSpec, List.mem_singleton] at he; subst he
+    exact ⟨verb_ne "POWERON" (by decide), upper_of_all "POWERON" (by decide), by simp⟩
+  | poweroff =>
+    simp only [emitSpec, List.mem_singleton] at he; subst he
+    exact ⟨verb_ne "POWEROFF" (by decide), upper_of_all "POWEROFF" (by decide), by simp⟩
+  | measure a =>
+    simp only [emitSpec, List.mem_singleton] at he; subst he
+    exact ⟨verb_ne "MEASURE" (by decide), upper_of_all "MEASURE" (by decide), by simp [fmtU_tok]⟩
+  | setfreqH0 a =>
+    simp only [emitSpec, List.mem_cons, List.mem_nil_iff, or_false] at he
+    rcases he with rfl | rfl
+    · exact ⟨verb_ne "RXTUNE" (by decide), upper_of_all "RXTUNE" (by decide), by simp [fmtU_tok]⟩
+    · exact ⟨verb_ne "TXTUNE" (by decide), upper_of_all "TXTUNE" (by decide), by simp [fmtU_tok]⟩
+  | setfreqH1 hsn maio n ma =>
+    simp only [emitSpec, List.mem_singleton] at he; subst he
+    refine ⟨verb_ne "SETFH" (by decide), upper_of_all "SETFH" (by decide), ?_⟩
+    intro a ha
+    simp only [List.mem_cons, List.mem_flatMap] at ha
+    rcases ha with rfl | rfl | ⟨x, _, hx⟩
+    · exact fmtU_tok _
+    · exact fmtU_tok _
+    · simp only [pairToks, List.mem_cons, List.mem_nil_iff, or_false] at hx
+      rcases hx with rfl | rfl <;> exact fmtU_tok _
+  | setslot tn pchan =>
+    simp only [emitSpec] at he
+    split at he
+    · simp only [List.mem_singleton] at he; subst he
+      exact ⟨verb_ne "SETSLOT" (by decide), upper_of_all "SETSLOT" (by decide), by simp [fmtU_tok]⟩
+    · simp at he
+  | setta ta =>
+    simp only [emitSpec, List.mem_singleton] at he; subst he
+    exact ⟨verb_ne "SETTA" (by decide), upper_of_all "SETTA" (by decide), by simp [fmtD_tok]⟩
+  | raw ty => simp [emitSpec] at he
+
+
+/-- **What trxcon emits.** For every PHYIF command the L1 side may issue (`ValidCmd`: ARFCNs that
+`gsm_arfcn2freq10` defines, a `gsm_phys_chan_config` inside `chan_types[]`, a mobile allocation
+whose text fits `ma_buf`), starting with an empty command queue, `trx_if_handle_phyif_cmd` returns 0,
+queues exactly the commands of `emitSpec` (RESET = POWEROFF + ECHO, SETFREQ_H0 = RXTUNE + TXTUNE, …)
+and passes the first one, NUL-terminated, to `send()`. -/
+theorem trxcon_cmd_emits (t : Trx) (c : PhyCmd) (hq : t.queue = []) (hst : t.state < 4) (hv : ValidCmd c) :
+    ∃ t', cPhyCmd t c = .ok (0, t') ∧ t'.queue = (emitSpec c).map Emitted.msg ∧
+      (∀ e rest, emitSpec c = e :: rest → t'.sent = t.sent ++ [e.text ++ [0]]) :=
+  let ⟨t', h1, h2, _, _, h5⟩ := cPhyCmd_emits t c hq hst hv
+  ⟨t', h1, h2, h5⟩
+
+/-- **Every command string trxcon emits is well formed**: `CMD <VERB>[ <arg>]*` with an upper-case
+verb, single blanks and decimal arguments, at most 1015 characters — shorter than
+`TRXC_BUF_SIZE` (1024) with its NUL, never cut by `snprintf`. -/
+theorem trxcon_cmd_wellformed (c : PhyCmd) (hv : ValidCmd c) :
+    ∀ e ∈ emitSpec c, WellFormedCmd e.text ∧ e.text.length + 1 < trxcBufSize ∧ (∀ ch ∈ e.text, ch ≠ 0) := by
+  intro e he
+  obtain ⟨h1, h2, h3⟩ := emitSpec_wf c e he
+  have hl := emitSpec_len c hv e he
+  have hcap : trxcBufSize = 1024 := by decide
+  refine ⟨⟨e.verb, e.args, rfl, h1, h2, h3⟩, by omega, ?_⟩
+  intro ch hch
+  simp only [Emitted.text, List.mem_append, List.mem_flatMap] at hch
+  rcases hch with (hch | hch) | ⟨a, ha, hch⟩
+  · exact cmd_nz ch hch
+  · have := h2 ch hch; omega
+  · simp only [List.mem_cons] at hch
+    rcases hch with rfl | hch
+    · omega
+    · rcases h3 a ha with ⟨_, hd⟩ | ⟨tl, rfl, _, hd⟩
+      · have := hd ch hch; rw [isDigit_iff] at this; omega
+      · simp only [List.mem_cons] at hch
+        rcases hch with rfl | hch
+        · omega
+        · have := hd ch hch; rw [isDigit_iff] at this; omega
+
+/-- **Length of `CMD SETFH`** for a mobile allocation of N channels (observation F8): the command
+is `CMD SETFH <hsn> <maio>` followed by ` <RxkHz> <TxkHz>` per channel, 14 characters per
+channel below 1 GHz and 16 for DCS 1800 / PCS 1900, hence
+`11 + digits(hsn) + digits(maio) + Σ (14|16)` characters; with 8-bit HSN/MAIO at most
+`17 + 16·N` and never more than 1015 (+ NUL = 1016 octets on the wire). -/
+theorem setfh_len (hsn maio : Nat) (ma : List Nat) (hne : ma ≠ []) (hval : ∀ a ∈ ma, ValidArfcn a) :
+    let text := Emitted.text ⟨1, str "SETFH", fmtU (u8 hsn) :: fmtU (u8 maio) :: ma.flatMap pairToks⟩
+    text.length = 11 + (fmtU (u8 hsn)).length + (fmtU (u8 maio)).length + (maText ma).length ∧
+    13 + 14 * ma.length ≤ text.length ∧ text.length ≤ 17 + 16 * ma.length ∧
+    ((maText ma).length ≤ 999 → text.length ≤ 1015) := by
+  intro text
+  have h := setfh_text_len hsn maio ma hne
+  have h1 := fmtU_u8_len_le hsn
+  have h2 := fmtU_u8_len_le maio
+  have h1' : 1 ≤ (fmtU (u8 hsn)).length := List.length_pos_iff.mpr (decFuel_ne_nil 9 _)
+  have h2' : 1 ≤ (fmtU (u8 maio)).length := List.length_pos_iff.mpr (decFuel_ne_nil 9 _)
+  have hb := maText_le ma hval
+  have he := maText_even ma hval
+  refine ⟨h, ?_, ?_, ?_⟩
+  · show 13 + 14 * ma.length ≤ (Emitted.text _).length
+    rw [h]; omega
+  · show (Emitted.text _).length ≤ 17 + 16 * ma.length
+    rw [h]; omega
+  · intro hl
+    show (Emitted.text _).length ≤ 1015
+    rw [h]; omega
+
+/-- …and the mobile allocation is refused with `-ENOSPC` exactly when its text does not fit
+`ma_buf[TRXC_BUF_SIZE - 24]` (999 characters + NUL); up to 62 channels always fit. -/
+theorem setfh_enospc (t : Trx) (hsn maio : Nat) (ma : List Nat) (hne : ma ≠ []) (hval : ∀ a ∈ ma, ValidArfcn a)
+    (hn : ma.length < 4294967296) (hbig : (maText ma).length > 999) :
+    cPhyCmd t (.setfreqH1 hsn maio ma.length ma) = .ok (-eNOSPC, { t with elog := true }) := by
+  have hcap : trxcBufSize - 24 - 1 = 999 := by decide
+  have hbuf := setfhMaBuf_eq ma hne hval hn
+  rw [hcap, if_neg (by omega)] at hbuf
+  simp only [cPhyCmd, hbuf, bind, Except.bind, pure, Except.pure]
+
+theorem setfh_fits_62 (ma : List Nat) (hval : ∀ a ∈ ma, ValidArfcn a) (hn : ma.length ≤ 62) :
+    (maText ma).length ≤ 999 := by
+  have := maText_le ma hval; omega
+
+/-! ## C05 / C14: the response parser -/
+
+/-- **No datagram can crash `trx_ctrl_read_cb`** (with the `fix:` for observation F6 applied): for
+ALL datagrams — any octets, any length; `read()` keeps at most `TRXC_BUF_SIZE - 1` = 1023 — and
+ANY pending commands, in any valid FSM state, the callback returns: no NULL dereference
+(`p + 1` with `p == NULL`), no read outside `buf`/`tcm->cmd`, no value that was never written
+(status, MEASURE result, octets behind the terminator). -/
+theorem trxc_rsp_no_crash (t : Trx) (d : List Nat) (hst : t.state < 4) (hps : t.prevState < 4) :
+    ∃ rc t', cReadCb t d = .ok (rc, t') :=
+  let ⟨r, h⟩ := cReadCb_ok t d hst hps
+  ⟨r.1, r.2, h⟩
+
+/-- **The replies of the transceiver are accepted.** For a pending command `CMD <verb><rest>` (every
+emitted command has this form, `trxcon_cmd_wellformed`) and the reply
+`RSP <verb> <status><rest><results>\0` the toolkit produces — any `int` status — the parser never
+reports a mismatch: status 0, or an error status for a non-critical command (logged), removes the
+command from the queue and returns 0; an error status for a critical command terminates the
+interface with `-EIO`. -/
+theorem trxcon_accepts_rsp (t : Trx) (tcm : CtrlMsg) (q : List CtrlMsg) (verb rest results : List Nat) (s : Int)
+    (hq : t.queue = tcm :: q) (hcmd : tcm.cmd = str "CMD " ++ verb ++ rest)
+    (hh : ReplyHyp verb rest results) (hs1 : -2147483648 ≤ s) (hs2 : s ≤ 2147483647)
+    (hlen : (replyTo verb rest results s).length ≤ trxcBufSize - 1)
+    (hst : t.state < 4) (hps : t.prevState < 4) :
+    (¬ (s ≠ 0 ∧ tcm.critical ≠ 0) →
+      ∃ t', cReadCb t (replyTo verb rest results s) = .ok (0, t') ∧ t'.queue = q ∧ (s ≠ 0 → t'.elog = true)) ∧
+    ((s ≠ 0 ∧ tcm.critical ≠ 0) →
+      ∃ t', cReadCb t (replyTo verb rest results s) = .ok (-eIO, t') ∧ t'.queue = t.queue ∧
+        t'.ev = t.ev ++ [Event.timerDel, Event.term termError]) := by
+  have hcap : trxcBufSize = 1024 := by decide
+  rw [cReadCb_reply t tcm q verb rest results s hq hcmd hh hs1 hs2 hlen]
+  constructor
+  · intro hacc
+    obtain ⟨t', h1, h2, _, h4⟩ := replyOutcome_accept t tcm q (verb ++ rest) (replyTo verb rest results s) s hst hps
+      (by omega) hacc
+    exact ⟨t', h1, h2, h4⟩
+  · intro hrej
+    obtain ⟨t', h1, h2, _, h4⟩ := replyOutcome_reject t tcm q (verb ++ rest) (replyTo verb rest results s) s hrej
+    exact ⟨t', h1, h2, h4⟩
+
+/-- **MEASURE**: the reply `RSP MEASURE 0 <kHz> <dBm>\0` to `CMD MEASURE <kHz>` for an ARFCN of the
+GSM bands hands exactly (ARFCN, dBm) to `trxcon_phyif_handle_rsp` (`sscanf("%u %d")` at `buf + 14`,
+`/ 100`, `gsm_freq102arfcn`). -/
+theorem trxcon_measure_result (t : Trx) (q : List CtrlMsg) (crit : Int) (n : Nat) (a : Nat) (dbm : Int)
+    (ha : CanonArfcn a) (h1 : -2147483648 ≤ dbm) (h2 : dbm ≤ 2147483647)
+    (hq : t.queue = ⟨str "CMD " ++ str "MEASURE" ++ 32 :: fmtU (arfcn2freq10 a false * 100), crit, n⟩ :: q)
+    (hst : t.state < 4) :
+    ∃ t', cReadCb t (replyTo (str "MEASURE") (32 :: fmtU (arfcn2freq10 a false * 100)) (32 :: fmtD dbm) 0)
+        = .ok (0, t') ∧ t'.queue = q ∧ t'.rsp = some (a, dbm) := by
+  obtain ⟨hlen, hdisp⟩ := rspDispatch_measure { t with ev := t.ev ++ [Event.timerDel] } a dbm ha h1 h2
+  have hh : ReplyHyp (str "MEASURE") (32 :: fmtU (arfcn2freq10 a false * 100)) (32 :: fmtD dbm) := by
+    refine ⟨?_, ?_, ?_, ?_⟩
+    · intro c hc; rw [str_measure] at hc; simp at hc; omega
+    · intro c hc
+      simp only [List.mem_cons] at hc
+      rcases hc with rfl | hc
+      · omega
+      · exact fmtU_nz _ c hc
+    · intro c hc
+      simp only [List.mem_cons] at hc
+      rcases hc with rfl | hc
+      · omega
+      · exact fmtD_nz _ c hc
+    · exact noDigitHead_cons 32 _ (by decide)
+  rw [cReadCb_reply t _ q _ _ _ 0 hq rfl hh (by omega) (by omega) (by omega)]
+  simp only [replyOutcome, ne_eq, not_true_eq_false, false_and, if_false, hdisp, bind, Except.bind, pure, Except.pure]
+  obtain ⟨t4, h4, sd, _⟩ := ctrlSend_ok { t with ev := t.ev ++ [Event.timerDel], rsp := some (a, dbm), queue := q } hst
+  rw [h4]
+  exact ⟨t4, rfl, sd.queue, sd.rsp⟩
+
 /-! ## C14: the TRXD receive path stays inside its buffer -/
 
 /-- For ALL datagrams (any length; `read()` keeps at most `TRXD_BUF_SIZE` = 512 octets): every
@@ -136,5 +357,50 @@ example : cRx (layoutRx ⟨0, 2715648, 7, -60, 5, false, .gmsk 0, 0, 0, some (Li
 example : cRx (layoutRx ⟨1, 5, 7, -60, 5, false, .gmsk 0, 0, 0, some (List.replicate 148 0)⟩ false) 2
     = .ret (-95) := by decide +kernel
 example : cTx ⟨3, 42, 10, [0, 1, 1], 3⟩ = .sent 0 [3, 0, 0, 0, 42, 10, 0, 1, 1] := by decide +kernel
+
+/-! ## non-vacuity: concrete commands, replies, the F6 witnesses on the fixed code -/
+
+def t0 : Trx := { state := stIdle, prevState := stOffline }
+def tWait (q : List CtrlMsg) : Trx := { queue := q, state := stRspWait, prevState := stIdle }
+/-- observations of a result: `none` = fault -/
+def sentLens (r : Except Fault (Int × Trx)) : Option (Int × List Nat) :=
+  match r with | .ok (rc, t) => some (rc, t.sent.map List.length) | .error _ => none
+def outcome (r : Except Fault (Int × Trx)) : Option (Int × Nat × Bool × Option (Nat × Int)) :=
+  match r with | .ok (rc, t) => some (rc, t.queue.length, t.elog, t.rsp) | .error _ => none
+def texts (r : Except Fault (Int × Trx)) : Option (Int × List (List Nat) × List (List Nat)) :=
+  match r with | .ok (rc, t) => some (rc, t.queue.map (·.cmd), t.sent) | .error _ => none
+def isCrash (r : Except Fault (Int × Trx)) : Bool :=
+  match r with | .error .crash => true | _ => false
+
+instance : DecidablePred ValidCmd := fun c => by
+  cases c <;> simp only [ValidCmd] <;> infer_instance
+
+example : ValidCmd (.setfreqH1 63 63 64 (List.range' 1 64)) := by decide +kernel
+example : sentLens (cPhyCmd t0 (.setfreqH1 63 63 64 (List.range' 1 64))) = some (0, [912]) := by decide +kernel
+-- the longest SETFH trxcon can emit: 51 DCS-1800 and 13 P-GSM channels, 3-digit HSN/MAIO: 1015 characters + NUL
+example : sentLens (cPhyCmd t0 (.setfreqH1 255 255 64 (List.range' 512 51 ++ List.range' 1 13))) = some (0, [1016]) := by
+  decide +kernel
+-- 63 DCS-1800 channels do not fit ma_buf
+example : sentLens (cPhyCmd t0 (.setfreqH1 1 2 63 (List.range' 512 63))) = some (-28, []) := by decide +kernel
+example : texts (cPhyCmd t0 .reset) =
+    some (0, [str "CMD POWEROFF", str "CMD ECHO"], [str "CMD POWEROFF" ++ [0]]) := by decide +kernel
+example : texts (cPhyCmd t0 (.setslot 3 9)) = some (0, [str "CMD SETSLOT 3 5"], [str "CMD SETSLOT 3 5" ++ [0]]) := by decide +kernel
+example : texts (cPhyCmd t0 (.setta (-128))) = some (0, [str "CMD SETTA -128"], [str "CMD SETTA -128" ++ [0]]) := by decide +kernel
+example : isCrash (cPhyCmd t0 (.setslot 3 12)) = true := by decide +kernel
+-- F6 witnesses on the fixed code
+example : outcome (cReadCb (tWait [⟨str "CMD POWERON", 1, 7⟩]) (str "RSP POWERON" ++ [0])) = some (-5, 1, true, none) := by
+  decide +kernel
+example : outcome (cReadCb (tWait [⟨str "CMD POWERON", 1, 7⟩]) (str "RSP POWERON x" ++ [0])) = some (-5, 1, true, none) := by
+  decide +kernel
+example : outcome (cReadCb (tWait [⟨str "CMD POWERON", 1, 7⟩]) (str "RSP POWERON 0" ++ [0])) = some (0, 0, false, none) := by
+  decide +kernel
+example : outcome (cReadCb (tWait [⟨str "CMD SETTA 3", 0, 5⟩]) (str "RSP SETTA 1 3" ++ [0])) = some (0, 0, true, none) := by
+  decide +kernel
+example : outcome (cReadCb (tWait [⟨str "CMD MEASURE 935200", 1, 7⟩]) (str "RSP MEASURE 0 935200 -55" ++ [0]))
+    = some (0, 0, false, some (1, -55)) := by decide +kernel
+example : outcome (cReadCb (tWait [⟨str "CMD MEASURE 935200", 1, 7⟩]) (str "RSP MEASURE 0")) = some (0, 0, true, none) := by
+  decide +kernel
+example : CanonArfcn 33280 ∧ replyTo (str "MEASURE") (32 :: fmtU (arfcn2freq10 33280 false * 100)) (32 :: fmtD (-110)) 0
+    = str "RSP MEASURE 0 1930200 -110" ++ [0] := by decide +kernel
 
 end OsmoVerif.Props.Trxcon
